@@ -253,6 +253,9 @@ pub fn check_request(t: &tera::Tera, req: &Req, ctx: &tera::Context, case: &dyn 
     l.label("request:ok");
     if !bytes.is_empty() {
         l.nontrivial(hash_of(&(req.json().to_string(), full.clone())));
+        if bytes.len() > 20 {
+            l.sample(|| json!({"request": req.json(), "output_bytes": bytes.len(), "output": full.chars().take(200).collect::<String>(), "checked": "render == render_to(Vec) == 1-byte writer == short-write writer; every failing offset/write call gives Err with the accepted bytes a prefix; repeat and context equality"}));
+        }
     }
     Ok(())
 }
